@@ -33,7 +33,7 @@ type WOp struct {
 }
 
 var WriteKinds = []string{
-	"create", "create_slice", "create_ptr_slice", "create_batches", "create_map", "create_lang", "create_langs", "update_lang", "create_memo", "save_memo",
+	"create", "create_slice", "create_ptr_slice", "create_batches", "create_map", "create_lang", "create_langs", "update_lang", "create_memo", "save_memo", "create_toy", "update_toy", "create_account", "update_account",
 	"save", "save_slice",
 	"update", "updates_struct", "updates_ptr", "updates_map", "updates_assoc", "updates_self", "update_column", "update_columns",
 	"delete", "delete_pet", "delete_select", "delete_where", "delete_slice",
@@ -117,6 +117,14 @@ func (op *WOp) Exec(db *gorm.DB) (res Result) {
 		return done(db.Create(&us))
 	case "create_map":
 		return done(db.Model(&fam.User{}).Create(map[string]interface{}{"Name": op.Str, "Age": op.Int}))
+	case "create_toy":
+		return done(db.Create(&fam.Toy{Name: op.Str}))
+	case "update_toy":
+		return done(db.Model(&fam.Toy{ID: 1}).Update("name", op.Str))
+	case "create_account":
+		return done(db.Create(&fam.Account{Number: op.Str}))
+	case "update_account":
+		return done(db.Model(&fam.Account{ID: 1}).Update("number", op.Str))
 	case "create_memo":
 		// a model whose only hook has a value receiver
 		return done(db.Create(&fam.Memo{Text: op.Str}))
